@@ -113,7 +113,7 @@ def drive_shipped(events):
 def post(tier, seed):
     def run(v, charts, cases, masks):
         rng = random.Random(seed * 31 + 9)
-        n = 300 if tier == 'quick' else 4000
+        n = 600 if tier == 'quick' else 5000
         stats = dict(ok=0, ended=0, premise_ends=0, violation=0)
         nv = 0
         import pickle
@@ -127,7 +127,7 @@ def post(tier, seed):
                                      'timer_dec', 'timer_reset', 'cooking_start', 'cooking_stop', 'timer_tick',
                                      'power_inc', 'power_dec', 'power_reset', 'input_timer_inc'])
             else:
-                proto = genchart.valid_chart(rng, genchart.Profile(p_contract=0.6))
+                proto = genchart.valid_chart(rng, genchart.Profile(p_contract=0.7, p_active_guard=0.3, p_entry_code=0.6))
                 blob = pickle.dumps(proto)
                 fac = (lambda b: (lambda: pickle.loads(b)))(blob)
                 drv = drive_generated
